@@ -83,6 +83,29 @@ def replay_file(path):
             return 1
         print("does not reproduce on the current tree")
         return 0
+    if rec.get("kind") in ("marker_value", "marker_reconstruct"):
+        print("program:\n" + rec["text"])
+        print("witness:", json.dumps(rec.get("witness")))
+        req = rec["request"]
+        print("marker %s receives the bits %r (concrete evaluation of the emitted debug build)" % (req["cmr"][:16], req["bits"]))
+        if rec["kind"] == "marker_reconstruct":
+            real = E.driver_batch("run", [req])[0]
+            print("source-level value:", req["expect"], "| real TrackedCall::map_value:", json.dumps(real))
+            still = (not real.get("ok")) or real.get("expect_eq") is not True
+        else:
+            real = E.driver_batch("run", [req])[0]
+            print("real TrackedCall::map_value:", json.dumps(real))
+            print("source-level values of the call's argument:", json.dumps(rec["source_values"]))
+            still = True
+            for ex in rec["source_values"]:
+                rr = E.driver_batch("run", [dict(req, expect=ex["value"])])[0]
+                if rr.get("expect_eq") is True:
+                    still = False
+        if still:
+            print("VIOLATION property=%s replay=%s" % (rec.get("property", "?"), path))
+            return 1
+        print("does not reproduce on the current tree")
+        return 0
     real = E.driver_batch("run", [{"text": rec["text"], "debug": rec["debug"], "args": rec.get("args", {}),
                                    "witness": rec["witness"]}])[0]
     print("program:\n" + rec["text"])
